@@ -194,4 +194,53 @@ Proof.
   - split; [|discriminate]. intros _. split; [reflexivity|]. now rewrite (cread_rep _ id HI), Er.
 Qed.
 
+(* Delete has the same two-batch structure. If the search batch fails (delete_stage 1), Delete returns an
+   error although the plan's items are gone; the search entry - a trace of the plan - is still there. *)
+Lemma c14_cosmos_delete_gap_lemma ops id p :
+  cops_ok [] ops -> Spec.read id (sp_run ops []) = Some p ->
+  exists c', CosmosModel.delete_stage dec_req dec_att 1 id (cz_run ops cempty) = (c', false)
+             /\ (forall r, In r (fst c') -> row_plan r <> id)
+             /\ cz_read id c' = None
+             /\ In id (snd c').
+Proof.
+  intros Hok Hr. destruct (crun_rep ops Hok) as (E1 & _ & HI). rewrite E1.
+  destruct (cstep_delete enc_req dec_req enc_att dec_att req_ok att_ok dec_enc_req dec_enc_att _ id HI) as [E HI'].
+  unfold CosmosModel.delete, CosmosModel.delete_stage, Spec.delete, CosmosRep.crep in *.
+  rewrite Hr in E, HI'. cbn [is_some fst snd] in *.
+  destruct (CosmosModel.fetchPlan dec_req dec_att id (crows_of (sp_run ops []))) as [q|]; [|discriminate].
+  destruct (txn (CosmosModel.deletePlan q) (crows_of (sp_run ops []))) as [d1 [|]]; cbn [negb] in *; [|discriminate].
+  destruct (memb id (map sp_id (sp_run ops []))) eqn:Em; [|discriminate].
+  injection E as Ed _. subst d1. eexists. split; [reflexivity|]. cbn [fst snd]. repeat split.
+  - intros r Hr' Hid. apply (crows_of_in enc_req enc_att) in Hr' as (x & Hx & Hr'). apply filter_In in Hx as [_ Hx].
+    apply negb_true_iff, uid_eqb_neq in Hx. apply Hx. now rewrite <- (cplanid_plan enc_req enc_att x r Hr').
+  - unfold CosmosModel.read. cbn [fst].
+    rewrite (cread_refines enc_req dec_req enc_att dec_att req_ok att_ok dec_enc_req dec_enc_att _ id HI').
+    unfold Spec.read. apply find_none_iff. intros x Hx. apply filter_In in Hx as [_ Hx]. now apply negb_true_iff in Hx.
+  - now apply memb_In.
+Qed.
+
+(* What matters for the property: at no fault stage does Delete report success while a trace remains. *)
+Lemma c14_delete_success_no_trace_cosmos_lemma ops stage id c' :
+  cops_ok [] ops ->
+  CosmosModel.delete_stage dec_req dec_att stage id (cz_run ops cempty) = (c', true) ->
+  (forall r, In r (fst c') -> row_plan r <> id) /\ ~ In id (snd c') /\ cz_read id c' = None.
+Proof.
+  intros Hok Hd.
+  assert (H2 : cz_delete id (cz_run ops cempty) = (c', true)).
+  { unfold CosmosModel.delete. revert Hd. unfold CosmosModel.delete_stage. destruct (cz_run ops cempty) as [d s].
+    destruct (CosmosModel.fetchPlan dec_req dec_att id d); [|discriminate].
+    destruct stage as [|[|n]]; [discriminate | | exact (fun H => H)].
+    destruct (txn (CosmosModel.deletePlan s0) d) as [d1 [|]]; cbn [negb]; discriminate. }
+  destruct (c14_delete_cosmos_lemma ops id c' true Hok H2) as [_ H]. destruct (H eq_refl) as (A & B & _ & C & _). auto.
+Qed.
+
+(* UpdatePlan has it too: if the search batch fails the error is returned, and the plan item is already patched *)
+Lemma c13_cosmos_update_plan_gap_lemma id rs st sub (c : cdb) r0 :
+  In r0 (fst c) -> ckey r0 = (id, id) ->
+  CosmosModel.updatePlan_stage 1 id rs st sub c
+  = ((map (fun r => if ckeyb id id r then patch_plan rs st sub r else r) (fst c), snd c), false).
+Proof.
+  intros Hr Hk. unfold CosmosModel.updatePlan_stage. now rewrite (patchItem_eq id id _ (fst c) r0 Hr Hk).
+Qed.
+
 End CThm.
